@@ -73,7 +73,7 @@ def gen_namespace(rng, nsname, thorough, deps, want_blocks=True, main=True, gobj
     dep_types = []       # (ctype name) records of dependencies usable as pointer params
     for d in deps:
         for r in d.get('_records', []):
-            dep_types.append('DpbShared' if r == '-shared' else d['ns'] + r)
+            dep_types.append(r.split(':', 1)[1] if r.startswith('-shared:') else d['ns'] + r)
 
     copyfree = []
     nrec = rng.randint(1, 4 if thorough else 3)
@@ -253,9 +253,10 @@ def gen_namespace(rng, nsname, thorough, deps, want_blocks=True, main=True, gobj
                 block(tl, fn['file'])
         if rng.random() < 0.4:
             D({'k': 'function', 'name': '%s_%s_count_all' % (p, sr), 'ret': ['basic', 'int'], 'params': []}, f)
-    if 'DpbShared' in dep_types:
-        fn = D({'k': 'function', 'name': '%s_use_shared' % p, 'ret': ['ptr', ['named', 'DpbShared']],
-                'params': [['shared', ['ptr', ['named', 'DpbShared']]]]}, rng.choice(apis))
+    shared_types = [t for t in dep_types if t in ('DpbShared', 'DpShared')]
+    if shared_types:
+        fn = D({'k': 'function', 'name': '%s_use_shared' % p, 'ret': ['ptr', ['named', shared_types[0]]],
+                'params': [['shared', ['ptr', ['named', shared_types[0]]]]]}, rng.choice(apis))
         if want_blocks:
             block(['%s:' % fn['name'], '@shared: (transfer none): the shared thing', '', 'Uses it.', '',
                    'Returns: (transfer none): the same'], fn['file'])
@@ -617,16 +618,19 @@ def gen_job(rng, thorough):
             # them): which of the two a `DpbShared *` resolves to must not depend on the order in
             # which the transformer happened to meet A and B
             a['id_prefixes'] = ['Dpa', 'Dp']
+            shared = 'DpbShared'
             if rng.random() < 0.5:
-                # ... or both answer to "Dp" (a compatibility copy of a type that moved from one
-                # library to the other): then neither prefix is longer and only a deterministic
-                # registration order of the two can make the choice stable
+                # ... or both answer to "Dp" and the type is called DpShared (a compatibility copy
+                # of a type that moved from one library to the other): then neither matching
+                # prefix is longer and only a deterministic registration order of the two
+                # namespaces can make the choice stable
                 b['id_prefixes'] = ['Dpb', 'Dp']
+                shared = 'DpShared'
             for j, tag in ((a, 'a'), (b, 'b')):
                 f = [x for x in j['file_order'] if x.endswith('-typedefs.h')][0]
-                j['decls'].append({'k': 'typedef_struct_fwd', 'name': 'DpbShared', 'tag': '_DpbShared' + tag,
+                j['decls'].append({'k': 'typedef_struct_fwd', 'name': shared, 'tag': '_' + shared + tag,
                                    'file': f, 'line': 900})
-            a['_records'] = a['_records'] + ['-shared']
+            a['_records'] = a['_records'] + ['-shared:' + shared]
         c = gen_namespace(rng, 'Dpc', False, [a, b], want_blocks=False, main=False)
         deps = [c] if rng.random() < 0.5 else [c, b, a]
     gobject = rng.random() < 0.45
